@@ -110,6 +110,7 @@ type Interp struct {
 	inputRoots   []*Cell
 	PowApplied   []*ssa.Function
 	loopIter     map[*ssa.BasicBlock]int
+	InitEvents   []Event
 	bigVals      map[*Cell]*Term
 }
 
@@ -151,6 +152,8 @@ func New(p *load.Prog, cfg Config) *Interp {
 		}
 		it.journal = nil
 		it.Trace = nil
+		it.InitEvents = it.Events
+		it.Events = nil
 		it.LeafCalls = 0
 		it.FuncsEntered = map[*ssa.Function]int{}
 	}
@@ -782,8 +785,7 @@ func valueEq(a, b Value) bool {
 		y, ok := b.(PredV)
 		return ok && x.P.Equal(y.P)
 	case Top:
-		y, ok := b.(Top)
-		return ok && x.Taint == y.Taint
+		return false // two unknown values are never known to be equal
 	case Iface:
 		y, ok := b.(Iface)
 		return ok && valueEq(x.Dyn, y.Dyn)
